@@ -348,6 +348,80 @@ func genAries(repo string) (string, error) {
 		fmt.Fprintf(&b, "Definition gen_router_wrap : rwrap :=\n  %s.\n\n", wrap)
 	}
 
+	// Every exported method of C whose result is a slice or a map: does the
+	// caller get a freshly allocated value (every return hands back a local
+	// that was made in the body and filled by copy / append / index
+	// assignment), or a field / sub-slice / method result of the context's own
+	// state?  A handler may write to what it is handed.
+	{
+		var items []string
+		for _, fn := range p.sortedFiles() {
+			for _, d := range p.files[fn].Decls {
+				fd, ok := d.(*ast.FuncDecl)
+				if !ok || fd.Body == nil || recvName(fd) != "C" || !fd.Name.IsExported() ||
+					fd.Type.Results == nil || len(fd.Type.Results.List) == 0 {
+					continue
+				}
+				shared := false
+				for _, r := range fd.Type.Results.List {
+					switch t := r.Type.(type) {
+					case *ast.ArrayType:
+						shared = shared || t.Len == nil
+					case *ast.MapType:
+						shared = true
+					}
+				}
+				if !shared {
+					continue
+				}
+				// locals bound to make(...) or a composite literal
+				fresh := map[string]bool{}
+				ast.Inspect(fd.Body, func(nd ast.Node) bool {
+					as, ok := nd.(*ast.AssignStmt)
+					if !ok || len(as.Lhs) != 1 || len(as.Rhs) != 1 {
+						return true
+					}
+					id, ok := as.Lhs[0].(*ast.Ident)
+					if !ok {
+						return true
+					}
+					switch r := as.Rhs[0].(type) {
+					case *ast.CallExpr:
+						if f, ok := r.Fun.(*ast.Ident); ok && f.Name == "make" {
+							fresh[id.Name] = true
+						}
+					case *ast.CompositeLit:
+						fresh[id.Name] = true
+					}
+					return true
+				})
+				kind := "AccFresh"
+				nret := 0
+				ast.Inspect(fd.Body, func(nd ast.Node) bool {
+					rs, ok := nd.(*ast.ReturnStmt)
+					if !ok {
+						return true
+					}
+					nret++
+					for _, e := range rs.Results {
+						if id, ok := e.(*ast.Ident); ok && (fresh[id.Name] || id.Name == "nil") {
+							continue
+						}
+						if kind == "AccFresh" {
+							kind = "AccAlias"
+						}
+					}
+					return true
+				})
+				if nret == 0 {
+					kind = "(AccUnknown " + coqStr(p.src(fd.Body)) + ")"
+				}
+				items = append(items, "("+coqStr(fd.Name.Name)+", "+kind+")")
+			}
+		}
+		fmt.Fprintf(&b, "Definition gen_ctx_accessors : list (string * acc_kind) :=\n  [%s].\n\n", strings.Join(items, "; "))
+	}
+
 	// trie.go: newTrieNode sets hit: true; newTrieRoot() = newTrieNode("", "")
 	{
 		hit := false
